@@ -547,3 +547,42 @@ Example C06_nonvacuous_strs_pos :
              [[65; 98]; [67; 100]]%N with
      | Ok s => Some s | _ => None end) = Some (CStrs [[107]; [97; 98]; [67; 68]]%N).
 Proof. vm_compute; reflexivity. Qed.
+
+(* ------------------------------------------------------------------ *)
+(** * The two models of vector destinations agree (ArgH/HandlerCont.v)
+
+    vector<int> / vector<string> destinations are modelled twice: in
+    ArgH/Handler.v (the complete handler of C01-C04, C07, C08) and here in
+    ArgH/Cont.v.  For every argument definition (without position formats),
+    every state of the destination and every value string, assign() of the
+    handler model and assign_container of this model store the same content,
+    the same clear flag and the same cardinality counter, or fail alike. *)
+Require Import Celma.ArgH.HandlerCont.
+
+Theorem C06_vector_int_models_agree :
+  forall d a v l,
+    a_kind d = DVecInt -> val a = VInts l ->
+    match assign d a v, assign_container (step KVec (copts_of d)) (copts_of d)
+                          {| c_val := CInts l; c_clearp := clearp a; c_cnt := cnt a |} v with
+    | Ok a', Ok st' => c_val st' = CInts (match val a' with VInts l' => l' | _ => [] end) /\
+                       (exists l', val a' = VInts l') /\ c_clearp st' = clearp a' /\ c_cnt st' = cnt a'
+    | Err e1, Err e2 => e1 = e2
+    | Fault f1, Fault f2 => f1 = f2
+    | _, _ => False
+    end.
+Proof. exact vec_int_models_agree. Qed.
+Print Assumptions C06_vector_int_models_agree.
+
+Theorem C06_vector_string_models_agree :
+  forall d a v l,
+    a_kind d = DVecStr -> val a = VStrs l ->
+    match assign d a v, assign_container (step KVecStr (copts_of d)) (copts_of d)
+                          {| c_val := CStrs l; c_clearp := clearp a; c_cnt := cnt a |} v with
+    | Ok a', Ok st' => c_val st' = CStrs (match val a' with VStrs l' => l' | _ => [] end) /\
+                       (exists l', val a' = VStrs l') /\ c_clearp st' = clearp a' /\ c_cnt st' = cnt a'
+    | Err e1, Err e2 => e1 = e2
+    | Fault f1, Fault f2 => f1 = f2
+    | _, _ => False
+    end.
+Proof. exact vec_str_models_agree. Qed.
+Print Assumptions C06_vector_string_models_agree.
